@@ -61,6 +61,18 @@ dispatch   : (GenDispatch.v) each of the 14 arithmetic dunders of Vector / Table
              body is `return self.<via>(other, F, '<name>', '<symbol>')` with F = operator.<op> | module-level helper
              `def f(p, q): return <p|q> OP <q|p>` | `lambda p, q: <p|q> OP <q|p>`, or `return self.__X__(other)` (a
              delegation row); any other body is the row GOwnBody.
+sort       : (GenSort.v) from Table.sort_by only `I = list(range(N))` + the ONE top-level `for a, b in <reversed|list|zip of two
+             names>:` loop holding the ONE `.sort(key=, reverse=)` call, whose body may bind locals, define ONE local key function
+             `def f(i, n1=n1, ...)` (name defaults only; used exactly once, by the sort in the next statement) and sort in place;
+             inside: `data[i]`, `x is None`, `not`, conditional expressions, if/else, `return (flag, value)`.  From Vector.sort_by:
+             `if na_last: key_fn = lambda x: (<bool>, <x if x is not None else INT>) else: ...`, `T = tuple(sorted(self._underlying,
+             key=key_fn, reverse=...))`, then exactly `W = Vector(T, ...)`; `return W` (not translated, shape checked);
+             `!=` / `==` between bools.
+names      : (GenAggNames.v) in Table.aggregate / Table.window: ONE nested `uniquify(name)` whose only free name is a set
+             initialised by `U = set()` and touched nowhere else (`x in U`, `x not in U`, `U.add(x)`, EXACTLY the loop
+             `while f"{name}{i}" in U: i += 1`, f-strings of str / non-negative int fields without format specs), ONE nested name
+             builder (col, suffix) holding every `_sanitize_user_name(..)` call (`col._name or "lit"`, `san(..) or "lit"`,
+             `if s is None: s = "lit"`), and call sites uniquify(<col._name or "lit"> | <builder call> | <name>).
 csv        : (GenCsv.v) in _infer_type: `not s`, `s == ''`, `s.strip()` on the text, `try: return int(s) except ValueError:
              pass` (also float) as "if int() accepts s then int(s) else go on", `return s`, `return None`.
 fragments  : (GenJoin.v) from Table.inner_join / join / full_join only three TOP-LEVEL statements are translated:
@@ -97,6 +109,17 @@ ASSUMPTIONS = [
     "_table_elementwise_operation is translated (operator.<op>, a module-level `return a OP b` helper, or a lambda); how "
     "that function is applied to the elements is Model/Elementwise.elementwise_operation (correspondence check of C05); "
     "subclasses of Vector that override a dunder (_Date.__add__) are not in the table.",
+    "sort_by (GenSort.v): list.sort(key=, reverse=) / sorted(.., key=, reverse=) are Model/Sort.pysort (stable; reverse=True "
+    "keeps the original order of equal elements) over keys (flag, value) compared by Model/Sort.key_leb (tuple order: the "
+    "flag first, False < True, then the values by vleb; None == None); only step 5 of Table.sort_by and the part of "
+    "Vector.sort_by up to sorted(...) are translated; a key column is its _underlying, data[i] is nth with default None "
+    "(row numbers are in range: checked by the method), zip of equally long lists is combine; the int literal standing in "
+    "for None in Vector.sort_by's key is only ever compared with itself; a local key function is called only by the sort in "
+    "the next statement, so name defaults (rev=rev) and reads of the enclosing scope denote the same values.",
+    "aggregate / window naming (GenAggNames.v): the used-name set is a list (add = cons, `in` = Model/Naming.mem); a column "
+    "is seen through its _name (None or str); `x or \"lit\"` is name_or (None and \"\" are falsy); _sanitize_user_name is the "
+    "parameter san (model: sanitize reserved (lower b)); f\"{a}{i}\" is a ++ dec i; the probe loop runs at most |used|+1 "
+    "steps (fuel), as in Model/Names.uniq_search; the ORDER in which the methods request names is not translated.",
     "csv._infer_type (GenCsv.v): `not s` / `s == ''` is txt_empty, s.strip() is txt_strip; int()/float() of a str raise "
     "nothing but ValueError, int_ok / float_ok say whether they return; the converted value itself is not modelled.",
 ]
@@ -116,11 +139,19 @@ COQTY = {
     "name": "pyname", "tag": "option string", "string": "string",
     "elem": "X", "lelem": "list X", "vecself": "list X", "ofp": "option Z",
     "text": "T", "cell": "cellres T",
+    # sort kernels: a key cell is None or a value of type V; a column / vector is seen through its _underlying
+    "nat": "nat", "lnat": "list nat", "scell": "option V", "lscell": "list (option V)", "scol": "list (option V)",
+    "svec": "list (option V)", "lscol": "list (list (option V))", "lbool": "list bool",
+    "lkeyspec": "list (list (option V) * bool)", "vkeyfn": "(option V -> bool * option V)",
+    # aggregate / window naming: a column is seen through its _name (None or a str = Model/Naming.str)
+    "str": "str", "ostr": "option str", "lstr": "list str", "ncol": "option str",
 }
-NARROW = {"pyv": "vinfo", "odtype": "dtype", "ofp": "Z"}   # Optional types a `match` can narrow
-OPTIONAL = {"pyv", "odtype", "name", "tag", "ofp"}
+NARROW = {"pyv": "vinfo", "odtype": "dtype", "ofp": "Z", "ostr": "str"}   # Optional types a `match` can narrow
+OPTIONAL = {"pyv", "odtype", "name", "tag", "ofp", "scell", "ostr"}
 NONOPTIONAL_OBJ = {"vinfo", "dtype"}                   # `x is None` is statically False on these
-ELEM = {"lpyv": "pyv", "lelem": "elem"}
+ELEM = {"lpyv": "pyv", "lelem": "elem", "lscol": "scol", "lbool": "bool", "lkeyspec": ("scol", "bool"),
+        "lnat": "nat", "lscell": "scell", "svec": "scell"}
+SKEY = ("bool", "scell")                               # the sort key (flag, value), compared by Model/Sort.key_leb
 
 CLASSNAMES = {
     "bool": "KBool", "int": "KInt", "float": "KFloat", "complex": "KComplex", "str": "KStr",
@@ -139,12 +170,14 @@ def coqty(t) -> str:
 
 class Kernel:
     def __init__(self, py, coq, params, ret, cls=None, mode="value", prop=False, wrap_kind=False,
-                 static=False, elem_forms=False, ctxp=("", "")):
+                 static=False, elem_forms=False, ctxp=("", ""), sort_forms=False, name_forms=False):
         self.py, self.coq, self.params, self.ret = py, coq, params, ret
         self.cls, self.mode, self.prop, self.wrap_kind = cls, mode, prop, wrap_kind
         self.static = static            # @staticmethod: no self parameter
         self.elem_forms = elem_forms    # _hash_element: tests on the element are observations (GenPrelude.elinfo)
         self.ctxp = ctxp                # (binders, arguments) every definition of the file takes first
+        self.sort_forms = sort_forms    # sort_by fragments: key functions, list.sort / sorted, zip / reversed / range
+        self.name_forms = name_forms    # aggregate / window naming: f-strings, `x or "lit"`, the used-name set, the probe loop
         self.node = None
 
 
@@ -200,6 +233,7 @@ class Ctx:
         self.declared = {}          # python variable -> declared type (annotations, loop-carried)
         self.aux = []               # auxiliary definitions (loop bodies) emitted before the function
         self.nloops = 0
+        self.localfns = {}          # local `def key_fn(...)`: name -> (coq name, captured python names)
 
     def err(self, node, what):
         return TranslationError(self.file, getattr(node, "lineno", 0), f"{self.kernel.py}: {what}")
@@ -249,6 +283,14 @@ def disj(parts):
 
 def expr(ctx, env, node, want=None):
     """-> (coq text, type).  `want` only guides constants (None, tuples); callers coerce."""
+    if ctx.kernel.sort_forms:
+        r = sort_expr(ctx, env, node, want)
+        if r is not None:
+            return r
+    if ctx.kernel.name_forms:
+        r = name_expr(ctx, env, node, want)
+        if r is not None:
+            return r
     if ctx.kernel.elem_forms and not isinstance(node, (ast.Name, ast.Constant)):
         src = ast.unparse(node)
         for v, (cn, ty) in env.items():
@@ -370,6 +412,201 @@ def expr(ctx, env, node, want=None):
     raise ctx.err(node, f"expression form {type(node).__name__} is not on the allow-list")
 
 
+def coq_str_lit(ctx, node, v):
+    if not (isinstance(v, str) and all(32 <= ord(c) < 127 and c != '"' for c in v)):
+        raise ctx.err(node, f"string literal {v!r} is not plain printable ASCII")
+    return f'(s "{v}"%string)'
+
+
+def name_expr(ctx, env, node, want):
+    """the extra expression forms of the aggregate / window naming helpers; None = not one of them"""
+    if isinstance(node, ast.Constant) and isinstance(node.value, str):
+        return coq_str_lit(ctx, node, node.value), "str"
+    if isinstance(node, ast.Constant) and type(node.value) is int and node.value >= 0:
+        return str(node.value), "nat"
+    if isinstance(node, ast.JoinedStr):
+        parts = []
+        for v in node.values:
+            if isinstance(v, ast.Constant):
+                parts.append(coq_str_lit(ctx, v, v.value))
+            elif isinstance(v, ast.FormattedValue) and v.conversion == -1 and v.format_spec is None:
+                t, ty = expr(ctx, env, v.value)
+                if ty == "str":
+                    parts.append(t)
+                elif ty == "nat":
+                    parts.append(f"(dec {t})")            # the decimal text of a non-negative int
+                else:
+                    raise ctx.err(v, f"f-string field of type {ty}")
+            else:
+                raise ctx.err(v, "f-string field with a conversion / format spec")
+        if not parts:
+            raise ctx.err(node, "empty f-string")
+        return "(" + " ++ ".join(parts) + ")", "str"
+    if isinstance(node, ast.BoolOp) and isinstance(node.op, ast.Or) and len(node.values) == 2 \
+            and isinstance(node.values[1], ast.Constant) and isinstance(node.values[1].value, str):
+        a, ta = expr(ctx, env, node.values[0])
+        if ta not in ("ostr", "ncol"):
+            raise ctx.err(node, f"`x or <str>` on a {ta}")
+        if node.values[1].value == "":
+            raise ctx.err(node, "`x or \"\"`")
+        return f"(name_or {a} {coq_str_lit(ctx, node, node.values[1].value)})", "str"
+    if isinstance(node, ast.Attribute) and isinstance(node.ctx, ast.Load) and node.attr == "_name":
+        t, ty = expr(ctx, env, node.value)
+        if ty != "ncol":
+            raise ctx.err(node, f"._name of a {ty}")
+        return t, "ostr"
+    if isinstance(node, ast.Call) and isinstance(node.func, ast.Name) and node.func.id == "_sanitize_user_name" \
+            and node.func.id not in env and len(node.args) == 1 and not node.keywords:
+        t, ty = expr(ctx, env, node.args[0])
+        if ty != "str":
+            raise ctx.err(node, f"_sanitize_user_name of a {ty}")
+        return f"(san {t})", "ostr"
+    if isinstance(node, ast.Compare) and len(node.ops) == 1 and isinstance(node.ops[0], (ast.In, ast.NotIn)) \
+            and isinstance(node.comparators[0], ast.Name) and env.get(node.comparators[0].id, ("", ""))[1] == "lstr":
+        a, ta = expr(ctx, env, node.left)
+        if ta != "str":
+            raise ctx.err(node, f"membership of a {ta} in the name set")
+        t = f"mem {a} {env[node.comparators[0].id][0]}"
+        return (f"(negb ({t}))" if isinstance(node.ops[0], ast.NotIn) else f"({t})"), "bool"
+    return None
+
+
+def probe_loop(ctx, env, s):
+    """EXACTLY `while <bool expr mentioning i> : i += 1` with i a nat local whose only other occurrence in the test is
+    inside an f-string probing the name set -> while_probe with fuel |set| + 1"""
+    if s.orelse or len(s.body) != 1 or not isinstance(s.body[0], ast.AugAssign):
+        return None
+    inc = s.body[0]
+    if not (isinstance(inc.op, ast.Add) and isinstance(inc.target, ast.Name) and isinstance(inc.value, ast.Constant)
+            and inc.value.value == 1 and type(inc.value.value) is int):
+        return None
+    i = inc.target.id
+    t = s.test
+    if not (isinstance(t, ast.Compare) and len(t.ops) == 1 and isinstance(t.ops[0], ast.In) and isinstance(t.left, ast.JoinedStr)
+            and isinstance(t.comparators[0], ast.Name) and env.get(t.comparators[0].id, ("", ""))[1] == "lstr"
+            and env.get(i, ("", ""))[1] == "nat"):
+        return None
+    if sum(1 for n in ast.walk(t) if isinstance(n, ast.Name) and n.id == i) != 1:
+        return None
+    U = env[t.comparators[0].id][0]
+    env2 = dict(env)
+    env2[i] = ("probe__", "nat")
+    test, ty = expr(ctx, env2, t)
+    ctx.note(s, f"`while {ast.unparse(t)}: {i} += 1` translated as a fuelled probe with fuel len({t.comparators[0].id}) + 1 "
+                f"(every failed probe is a different member of the set, so the loop stops within that many steps)")
+    return i, f"(while_probe (S (List.length {U})) {env[i][0]} (fun probe__ => {test}))"
+
+
+LISTS = {"lnat", "lscell", "lscol", "lbool", "lkeyspec", "svec", "scol"}
+
+
+def sort_call_pysort(ctx, env, node, seq_node, kws):
+    """list.sort / sorted(seq, key=F, reverse=R): Python's stable sort on the keys (flag, value) = Model/Sort.pysort
+    with key_leb; `reverse` defaults to False; `key` must be a local key function / a lambda-valued local"""
+    if set(kws) - {"key", "reverse"} or "key" not in kws:
+        raise ctx.err(node, "sort without key= / with other keywords")
+    seq, ts = expr(ctx, env, seq_node)
+    if ts not in LISTS:
+        raise ctx.err(node, f"sort of a {ts}")
+    k = kws["key"]
+    if not isinstance(k, ast.Name):
+        raise ctx.err(node, "key= is not a plain name")
+    if k.id in ctx.localfns:
+        cn, caps, argty = ctx.localfns[k.id]
+        for c in caps:
+            if c not in env:
+                raise ctx.err(node, f"key function captures {c!r}, which is unbound here")
+        fn = f"{cn} {ctx.kernel.ctxp[1]} " + " ".join(env[c][0] for c in caps)
+    elif k.id in env and env[k.id][1] == "vkeyfn":
+        fn, argty = env[k.id][0], "scell"
+    else:
+        raise ctx.err(node, f"key={k.id} is not a local key function")
+    if ELEM[ts] != argty:
+        raise ctx.err(node, f"key function on {argty} applied to elements of type {ELEM[ts]}")
+    if "reverse" in kws:
+        r, tr = expr(ctx, env, kws["reverse"])
+        r = coerce(ctx, node, r, tr, "bool")
+    else:
+        r = "false"
+    return f"(pysort (fun a b => key_leb vleb ({fn} a) ({fn} b)) {r} {seq})", ts
+
+
+def sort_expr(ctx, env, node, want):
+    """the extra expression forms of the sort_by fragments; None = not one of them"""
+    if isinstance(node, ast.Call) and isinstance(node.func, ast.Name) and node.func.id not in env:
+        f, a = node.func.id, node.args
+        kws = {k.arg: k.value for k in node.keywords}
+        if any(isinstance(x, ast.Starred) for x in a) or None in kws:
+            return None
+        if f == "sorted" and len(a) == 1:
+            return sort_call_pysort(ctx, env, node, a[0], kws)
+        if kws:
+            return None
+        if f == "zip" and len(a) == 2:
+            x, tx = expr(ctx, env, a[0])
+            y, ty = expr(ctx, env, a[1])
+            if (tx, ty) != ("lscol", "lbool"):
+                raise ctx.err(node, f"zip of {tx} and {ty}")
+            ctx.note(node, "ASSUMPTION: zip() of two lists of equal length (the method has checked len(reverse) == len(keys)); "
+                           "on unequal lengths both zip and combine stop at the shorter")
+            return f"(combine {x} {y})", "lkeyspec"
+        if f == "range" and len(a) == 1:
+            x, tx = expr(ctx, env, a[0])
+            if tx != "nat":
+                raise ctx.err(node, f"range of a {tx}")
+            return f"(seq 0 {x})", "lnat"
+        if f in ("list", "tuple") and len(a) == 1:
+            x, tx = expr(ctx, env, a[0])
+            if tx not in LISTS:
+                raise ctx.err(node, f"{f}() of a {tx}")
+            return x, tx
+        if f == "reversed" and len(a) == 1:
+            x, tx = expr(ctx, env, a[0])
+            if tx not in LISTS:
+                raise ctx.err(node, f"reversed() of a {tx}")
+            return f"(rev {x})", tx
+        return None
+    if isinstance(node, ast.Subscript) and isinstance(node.ctx, ast.Load):
+        d, td = expr(ctx, env, node.value)
+        i, ti = expr(ctx, env, node.slice)
+        if (td, ti) != ("lscell", "nat"):
+            raise ctx.err(node, f"subscript of a {td} by a {ti}")
+        ctx.note(node, f"ASSUMPTION: `{ast.unparse(node)}`: the index is a row number of the table and every key column has "
+                       f"that many rows (checked by the method before), so nth with default None never uses the default")
+        return f"(nth {i} {d} None)", "scell"
+    if isinstance(node, ast.Attribute) and isinstance(node.ctx, ast.Load) and node.attr == "_underlying":
+        t, ty = expr(ctx, env, node.value)
+        if ty in ("scol", "svec"):
+            return t, "lscell"
+        raise ctx.err(node, f"._underlying of a {ty}")
+    if isinstance(node, ast.IfExp):
+        # `x if x is not None else <int literal>` (or mirrored): the value component of a key; the literal stands in
+        # for None and is only ever compared with itself
+        t = node.test
+        if (isinstance(t, ast.Compare) and len(t.ops) == 1 and isinstance(t.left, ast.Name) and is_none_const(t.comparators[0])
+                and isinstance(t.ops[0], (ast.Is, ast.IsNot)) and t.left.id in env and env[t.left.id][1] == "scell"):
+            some, none = (node.body, node.orelse) if isinstance(t.ops[0], ast.IsNot) else (node.orelse, node.body)
+            if (isinstance(some, ast.Name) and some.id == t.left.id and isinstance(none, ast.Constant)
+                    and type(none.value) is int):
+                ctx.note(node, f"ASSUMPTION: `{ast.unparse(node)}`: the literal standing in for None is compared only with "
+                               f"itself (two keys with equal flags are both None or both values); translated as the cell itself")
+                return env[t.left.id][0], "scell"
+        return None
+    if isinstance(node, ast.Lambda):
+        a = node.args
+        if (a.vararg or a.kwarg or a.kwonlyargs or a.posonlyargs or a.defaults or len(a.args) != 1):
+            raise ctx.err(node, "lambda shape (need exactly one plain parameter)")
+        x = a.args[0].arg
+        if x in env or x in CLASSNAMES:
+            raise ctx.err(node, f"lambda parameter {x!r} shadows another name")
+        env2 = dict(env)
+        env2[x] = (mangle(ctx, node, x), "scell")
+        t, ty = expr(ctx, env2, node.body, SKEY)
+        t = coerce(ctx, node, t, ty, SKEY)
+        return f"(fun {env2[x][0]} : option V => {t})", "vkeyfn"
+    return None
+
+
 def typed_args(ctx, env, node, args, types):
     if len(args) != len(types):
         raise ctx.err(node, f"{len(args)} arguments where {len(types)} are expected")
@@ -471,6 +708,8 @@ def equal(ctx, node, a, ta, b, tb, identity):
         return f"({a} =? {b})%Z"
     if ta == tb == "string" and not identity:
         return f"String.eqb {a} {b}"
+    if ta == tb == "bool" and not identity:
+        return f"Bool.eqb {a} {b}"
     raise ctx.err(node, f"{'identity' if identity else 'equality'} between {ta} and {tb}")
 
 
@@ -570,8 +809,24 @@ def terminates(stmts):
     return False
 
 
+def walk_outer(node):
+    """ast.walk that does not enter nested function definitions / lambdas"""
+    if isinstance(node, (ast.FunctionDef, ast.AsyncFunctionDef, ast.Lambda)):
+        yield node
+        return
+    todo = [node]
+    while todo:
+        n = todo.pop()
+        yield n
+        for c in ast.iter_child_nodes(n):
+            if not isinstance(c, (ast.FunctionDef, ast.AsyncFunctionDef, ast.Lambda)):
+                todo.append(c)
+            else:
+                yield c
+
+
 def has_exit(stmts):
-    return any(isinstance(n, (ast.Return, ast.Raise)) for s in stmts for n in ast.walk(s))
+    return any(isinstance(n, (ast.Return, ast.Raise)) for s in stmts for n in walk_outer(s))
 
 
 def assigned(stmts):
@@ -593,6 +848,9 @@ def assigned(stmts):
                     tgt(t)
             elif isinstance(s, ast.AnnAssign):
                 tgt(s.target)
+            elif (isinstance(s, ast.Expr) and isinstance(s.value, ast.Call) and isinstance(s.value.func, ast.Attribute)
+                  and s.value.func.attr == "sort" and isinstance(s.value.func.value, ast.Name)):
+                tgt(s.value.func.value)                 # X.sort(...) updates X in place
             elif isinstance(s, ast.If):
                 go(s.body)
                 go(s.orelse)
@@ -822,14 +1080,91 @@ def block(ctx, env, stmts, ind):
         a = block(ctx, env_t, list(s.body) + ([] if terminates(s.body) else list(rest)), ind + 1)
         b = block(ctx, env_e, list(s.orelse) + ([] if terminates(s.orelse) else list(rest)), ind + 1)
         return p + cond.emit(a, b, ind, s.lineno)
+    if ctx.kernel.name_forms and isinstance(s, ast.While):
+        r = probe_loop(ctx, env, s)
+        if r is None:
+            raise ctx.err(s, "`while` other than the name probe `while f\"{base}{i}\" in <set>: i += 1`")
+        line, env2 = bind(ctx, env, s, r[0], r[1], "nat")
+        return f"{p}{line} (* L{s.lineno} while *)\n" + block(ctx, env2, rest, ind)
+    if (ctx.kernel.name_forms and isinstance(s, ast.Expr) and isinstance(s.value, ast.Call)
+            and isinstance(s.value.func, ast.Attribute) and s.value.func.attr == "add"
+            and isinstance(s.value.func.value, ast.Name) and env.get(s.value.func.value.id, ("", ""))[1] == "lstr"
+            and len(s.value.args) == 1 and not s.value.keywords):
+        U = s.value.func.value.id
+        t, ty = expr(ctx, env, s.value.args[0])
+        t = coerce(ctx, s, t, ty, "str")
+        line, env2 = bind(ctx, env, s, U, f"({t} :: {env[U][0]})", "lstr")
+        return f"{p}{line} (* L{s.lineno} {U}.add(...) *)\n" + block(ctx, env2, rest, ind)
+    if isinstance(s, ast.FunctionDef) and ctx.kernel.sort_forms:
+        return local_key_function(ctx, env, s, rest, ind)
+    if (ctx.kernel.sort_forms and isinstance(s, ast.Expr) and isinstance(s.value, ast.Call)
+            and isinstance(s.value.func, ast.Attribute) and s.value.func.attr == "sort"
+            and isinstance(s.value.func.value, ast.Name) and not s.value.args):
+        x = s.value.func.value.id
+        if x not in env:
+            raise ctx.err(s, f"{x}.sort(): unknown name")
+        t, ty = sort_call_pysort(ctx, env, s.value, s.value.func.value, {k.arg: k.value for k in s.value.keywords})
+        line, env2 = bind(ctx, env, s, x, t, ty)
+        return f"{p}{line} (* L{s.lineno} {x}.sort(...) in place *)\n" + block(ctx, env2, rest, ind)
     if isinstance(s, ast.For):
         return for_loop(ctx, env, s, rest, ind)
     raise ctx.err(s, f"statement form {type(s).__name__} is not on the allow-list")
 
 
+def local_key_function(ctx, env, s, rest, ind):
+    """`def key_fn(i, a=a, b=b): ...` inside a sort_by: a key function used by the sort call that FOLLOWS IT IMMEDIATELY.
+    Parameters after the first must have defaults that are plain names (bound when the def runs); other free names
+    are read from the enclosing scope — the same values, because the only call is the sort in the next statement."""
+    a = s.args
+    if (s.decorator_list or a.vararg or a.kwarg or a.kwonlyargs or a.posonlyargs or not a.args
+            or len(a.defaults) != len(a.args) - 1 or s.name in env or s.name in ctx.localfns):
+        raise ctx.err(s, "local function shape (need def f(x, n1=n1, ...) with one argument and name defaults)")
+    nxt = rest[0] if rest else None
+    uses = [n for r in rest for n in ast.walk(r) if isinstance(n, ast.Name) and n.id == s.name]
+    if not (nxt is not None and isinstance(nxt, ast.Expr) and isinstance(nxt.value, ast.Call)
+            and any(k.arg == "key" and isinstance(k.value, ast.Name) and k.value.id == s.name for k in nxt.value.keywords)
+            and len(uses) == 1):
+        raise ctx.err(s, f"{s.name} must be used exactly once, as key= of the sort call in the next statement")
+    argty = getattr(ctx.kernel, "keyfn_arg", "nat")
+    fenv = dict(env)
+    for prm, d in zip(a.args[1:], a.defaults):
+        if not isinstance(d, ast.Name) or d.id not in env:
+            raise ctx.err(s, f"default of {prm.arg} is not a bound plain name")
+        fenv[prm.arg] = env[d.id]
+    x = a.args[0].arg
+    if x in env:
+        raise ctx.err(s, f"parameter {x!r} shadows another name")
+    fenv[x] = (mangle(ctx, s, x), argty)
+    saved = (ctx.ret, ctx.mode, ctx.finish, dict(ctx.declared))
+    ctx.ret, ctx.mode, ctx.finish = SKEY, "value", None
+    body = block(ctx, fenv, s.body, 1)
+    ctx.ret, ctx.mode, ctx.finish, ctx.declared = saved
+    word = lambda cn: re.search(r"(?<![A-Za-z0-9_'])" + re.escape(cn) + r"(?![A-Za-z0-9_'])", body)
+    # captured names: those of the enclosing scope (through a default or directly) that the body mentions;
+    # canonical order: by Coq type (descending), then by name
+    caps = {}
+    for n, (cn, ty) in fenv.items():
+        if n != x and word(cn):
+            src = next((d.id for prm, d in zip(a.args[1:], a.defaults) if prm.arg == n), n)
+            caps[src] = (cn, ty)
+    order = sorted(caps, key=lambda n: (coqty(caps[n][1]), n))
+    order.sort(key=lambda n: coqty(caps[n][1]), reverse=True)
+    cn = f"{ctx.kernel.coq}_{s.name}"
+    params = "".join(f" ({caps[n][0]} : {coqty(caps[n][1])})" for n in order)
+    cp = ctx.kernel.ctxp[0]
+    ctx.aux.append((cn, f"(* {Path(ctx.file).name}:{s.lineno}-{s.end_lineno} local function {s.name} of {ctx.kernel.py}; "
+                        f"captured: {', '.join(order)} *)\n"
+                        f"Definition {cn}{' ' + cp if cp else ''}{params} ({fenv[x][0]} : {coqty(argty)}) : {coqty(SKEY)} :=\n{body}.\n"))
+    ctx.localfns[s.name] = (cn, order, argty)
+    return block(ctx, env, rest, ind)
+
+
 def for_loop(ctx, env, s, rest, ind):
     p = pad(ind)
-    if s.orelse or not isinstance(s.target, ast.Name) or not isinstance(s.iter, (ast.Name, ast.Attribute)):
+    tgt_ok = isinstance(s.target, ast.Name) or (isinstance(s.target, ast.Tuple) and s.target.elts
+                                                 and all(isinstance(e, ast.Name) for e in s.target.elts))
+    iter_ok = isinstance(s.iter, (ast.Name, ast.Attribute)) or (ctx.kernel.sort_forms and isinstance(s.iter, ast.Call))
+    if s.orelse or not tgt_ok or not iter_ok:
         raise ctx.err(s, "`for` shape (need `for x in <name or self attribute>:` without else)")
     if ctx.finish is not None:
         raise ctx.err(s, "nested loop / loop inside a joined branch")
@@ -840,11 +1175,16 @@ def for_loop(ctx, env, s, rest, ind):
     iter_names = {n.id for n in ast.walk(s.iter) if isinstance(n, ast.Name)}
     if has_exit(s.body) or any(isinstance(n, (ast.Break, ast.Continue, ast.For, ast.While)) for b in s.body for n in ast.walk(b)):
         raise ctx.err(s, "loop body with return/raise/break/continue/nested loop")
-    x = s.target.id
-    if x in env or x in CLASSNAMES:
+    xs = [s.target.id] if isinstance(s.target, ast.Name) else [e.id for e in s.target.elts]
+    ety = ELEM[iter_ty]
+    etys = [ety] if isinstance(s.target, ast.Name) else list(ety) if isinstance(ety, tuple) else None
+    if etys is None or len(etys) != len(xs) or len(set(xs)) != len(xs) or (isinstance(s.target, ast.Name) and isinstance(ety, tuple)):
+        raise ctx.err(s, f"loop target does not match the element type {ety}")
+    x = ", ".join(xs)
+    if any(v in env or v in CLASSNAMES for v in xs):
         raise ctx.err(s, f"loop variable {x!r} shadows another name")
     body_assigned = assigned(s.body)
-    if x in body_assigned:
+    if any(v in body_assigned for v in xs):
         raise ctx.err(s, "loop variable assigned in the body")
     # loop state: canonical order = by Coq type (descending), ties in declaration order — so that renaming a
     # variable or swapping two initialisations does not change the type of the generated loop body
@@ -860,7 +1200,7 @@ def for_loop(ctx, env, s, rest, ind):
         raise ctx.err(s, "the loop body assigns a name the iterated expression depends on")
     if not carried:
         raise ctx.err(s, "loop without loop-carried state")
-    if any(isinstance(n, ast.Name) and n.id == x for r in rest for n in ast.walk(r)):
+    if any(isinstance(n, ast.Name) and n.id in xs for r in rest for n in ast.walk(r)):
         raise ctx.err(s, "loop variable used after the loop")
     ctypes = []
     for n in carried:
@@ -879,7 +1219,8 @@ def for_loop(ctx, env, s, rest, ind):
     benv = {n: env[n] for n in extra}
     for n, ty in zip(carried, ctypes):
         benv[n] = (mangle(ctx, s, n), ty)
-    benv[x] = (mangle(ctx, s, x), ELEM[iter_ty])
+    for v, t in zip(xs, etys):
+        benv[v] = (mangle(ctx, s, v), t)
     ctx.finish = lambda e: tuple_text(ctx, s, e, carried, ctypes) + " (* next loop state *)"
     body = block(ctx, benv, s.body, 1)
     ctx.finish = None
@@ -891,8 +1232,10 @@ def for_loop(ctx, env, s, rest, ind):
     params = (" " + cp if cp else "") + params
     head = (f"(* {Path(ctx.file).name}:{s.lineno}-{s.end_lineno} body of `for {x} in {iter_src}` of {ctx.kernel.py}; "
             f"state = ({', '.join(carried)}) *)\n"
-            f"Definition {lname}{params} (st : {coqty(st_ty)}) ({mangle(ctx, s, x)} : {coqty(benv[x][1])}) : {coqty(st_ty)} :=\n"
-            f"  let {pattern(ctx, s, carried)} := st in\n{body}.\n")
+            f"Definition {lname}{params} (st : {coqty(st_ty)}) "
+            f"({'elem__' if len(xs) > 1 else mangle(ctx, s, xs[0])} : {coqty(ety)}) : {coqty(st_ty)} :=\n"
+            f"  let {pattern(ctx, s, carried)} := st in\n"
+            + (f"  let {pattern(ctx, s, xs)} := elem__ in\n" if len(xs) > 1 else "") + f"{body}.\n")
     ctx.aux.append((lname, head))
     init = tuple_text(ctx, s, env, carried, ctypes)
     env2 = dict(env)
@@ -1458,6 +1801,271 @@ def translate_dispatch(repo_src: Path):
     return head + "\n".join(parts), {"lines": lines, "notes": notes}
 
 
+# ---- sort_by: the key functions, the passes and their order (table.py step 5, vector.py) ----------------------
+
+SORT_CTXP = ("(V : Type) (vleb : V -> V -> bool)", "V vleb")
+IMPORTS_SORT = ("From Coq Require Import List Bool Arith.\nFrom Serif Require Import Base.PyVal Base.GenPrelude Model.Sort.\n"
+                "Import ListNotations.\n")
+
+
+def _sort_method(file, tree, cls):
+    cs = [n for n in tree.body if isinstance(n, ast.ClassDef) and n.name == cls]
+    if len(cs) != 1:
+        raise TranslationError(file, 0, f"class {cls}: found {len(cs)} definitions")
+    fs = [n for n in ast.walk(cs[0]) if isinstance(n, (ast.FunctionDef, ast.AsyncFunctionDef)) and n.name == "sort_by"]
+    if len(fs) != 1 or fs[0] not in cs[0].body or not isinstance(fs[0], ast.FunctionDef) or fs[0].decorator_list:
+        raise TranslationError(file, 0, f"method {cls}.sort_by: found {len(fs)} plain definitions")
+    f = fs[0]
+    a = f.args
+    if a.vararg or a.kwarg or a.kwonlyargs or a.posonlyargs:
+        raise TranslationError(file, f.lineno, f"{cls}.sort_by: *args / **kwargs / keyword-only parameters")
+    for n in ast.walk(tree):
+        if isinstance(n, ast.Attribute) and n.attr == "sort_by" and isinstance(n.ctx, (ast.Store, ast.Del)):
+            raise TranslationError(file, n.lineno, f"{cls}.sort_by is re-bound by an attribute assignment")
+        if isinstance(n, ast.Name) and n.id in ("sorted", "zip", "reversed", "range", "list", "tuple") \
+                and isinstance(n.ctx, (ast.Store, ast.Del)):
+            raise TranslationError(file, n.lineno, f"builtin {n.id} is re-bound")
+    return f
+
+
+def _stores(node, name):
+    """assignments to `name` (a parameter of a nested key function that shadows it is handled by the translation)"""
+    return [n for n in ast.walk(node) if isinstance(n, ast.Name) and n.id == name and isinstance(n.ctx, (ast.Store, ast.Del))]
+
+
+def translate_sort(repo_src: Path):
+    notes, parts, lines = [], [], {}
+    # ---- Table.sort_by, step 5: indices = list(range(nrows)); for col, rev in reversed(list(zip(resolved, rev_flags))): ...
+    file = repo_src / "table.py"
+    tree = ast.parse(file.read_text(), filename=str(file))
+    f = _sort_method(file, tree, "Table")
+    names = [x.arg for x in f.args.args]
+    if "na_last" not in names or _stores(f, "na_last"):
+        raise TranslationError(file, f.lineno, "Table.sort_by: `na_last` must be a parameter that is never assigned")
+    loops = [st for st in f.body if isinstance(st, ast.For)
+             and any(isinstance(n, ast.Call) and isinstance(n.func, ast.Name) and n.func.id == "zip" for n in ast.walk(st.iter))]
+    inner = [n for n in ast.walk(f) if isinstance(n, ast.Call) and isinstance(n.func, ast.Attribute) and n.func.attr == "sort"]
+    if len(loops) != 1 or len(inner) != 1 or inner[0] not in list(ast.walk(loops[0])):
+        raise TranslationError(file, f.lineno, f"Table.sort_by: expected ONE top-level `for ... in ...zip(..)...` loop holding the "
+                                               f"one .sort() call (found {len(loops)} loops, {len(inner)} sort calls)")
+    L = loops[0]
+    i = f.body.index(L)
+    prev = f.body[i - 1] if i > 0 else None
+    zips = [n for n in ast.walk(L.iter) if isinstance(n, ast.Call) and isinstance(n.func, ast.Name) and n.func.id == "zip"]
+    if (len(zips) != 1 or len(zips[0].args) != 2 or zips[0].keywords or not all(isinstance(x, ast.Name) for x in zips[0].args)
+            or not (isinstance(prev, ast.Assign) and len(prev.targets) == 1 and isinstance(prev.targets[0], ast.Name))):
+        raise TranslationError(file, L.lineno, "Table.sort_by: need `I = list(range(N))` directly before the loop and zip(A, B) of two names")
+    A, B = zips[0].args[0].id, zips[0].args[1].id
+    I = prev.targets[0].id
+    rng = [n for n in ast.walk(prev.value) if isinstance(n, ast.Call) and isinstance(n.func, ast.Name) and n.func.id == "range"]
+    if len(rng) != 1 or len(rng[0].args) != 1 or not isinstance(rng[0].args[0], ast.Name):
+        raise TranslationError(file, prev.lineno, "Table.sort_by: the index list is not built from range(<name>)")
+    N = rng[0].args[0].id
+    if len({A, B, N, I, "na_last"}) != 5:
+        raise TranslationError(file, L.lineno, "Table.sort_by: the names of the fragment are not distinct")
+    for nm in (A, B, N, "na_last"):
+        if _stores(L, nm):
+            raise TranslationError(file, L.lineno, f"Table.sort_by: {nm} is assigned inside the sort loop")
+    after_uses = [st for st in f.body[i + 1:] for n in ast.walk(st) if isinstance(n, ast.Name) and n.id == I
+                  and isinstance(n.ctx, (ast.Store, ast.Del))]
+    if after_uses:
+        raise TranslationError(file, after_uses[0].lineno, f"Table.sort_by: {I} is re-assigned after the sort loop")
+    syn = ast.FunctionDef(name="sort_by", args=ast.arguments(posonlyargs=[], args=[ast.arg(arg=x) for x in (A, B, "na_last", N)],
+                                                           kwonlyargs=[], kw_defaults=[], defaults=[]),
+                          body=[prev, L, ast.Return(value=ast.Name(id=I, ctx=ast.Load()))], decorator_list=[])
+    ast.copy_location(syn, f)
+    syn.end_lineno = L.end_lineno
+    ast.fix_missing_locations(syn)
+    syn.body[2].lineno = L.end_lineno
+    k = Kernel("sort_by", "table_sort_indices", ["lscol", "lbool", "bool", "nat"], "lnat", cls="Table", ctxp=SORT_CTXP,
+               sort_forms=True)
+    k.node, k.keyfn_arg = syn, "nat"
+    notes.append(f"table.py:{prev.lineno}-{L.end_lineno} Table.sort_by: ONLY step 5 is translated, as a function of "
+                 f"({A}, {B}, na_last, {N}) returning {I}; steps 1-4 (normalising by/reverse, resolving the key columns, the "
+                 f"empty table) and step 6 (gathering the rows) are Model/Sort.resolve_keys / gather (correspondence check)")
+    text, _, _ = translate_function(file, k, {}, notes)
+    parts.append(text)
+    lines["table_sort_indices"] = [prev.lineno, L.end_lineno]
+    # ---- Vector.sort_by: the two key lambdas and sorted(...)
+    file = repo_src / "vector.py"
+    tree = ast.parse(file.read_text(), filename=str(file))
+    f = _sort_method(file, tree, "Vector")
+    if len(f.args.args) != 3:
+        raise TranslationError(file, f.lineno, "Vector.sort_by: expected (self, reverse, na_last)")
+    me = f.args.args[0].arg
+    for prm in f.args.args[1:]:
+        if _stores(f, prm.arg):
+            raise TranslationError(file, f.lineno, f"Vector.sort_by: parameter {prm.arg} is assigned")
+    body = [st for st in f.body if not is_docstring(st)]
+    srt = [st for st in body if isinstance(st, ast.Assign) and any(
+        isinstance(n, ast.Call) and isinstance(n.func, ast.Name) and n.func.id == "sorted" for n in ast.walk(st.value))]
+    allsorted = [n for n in ast.walk(f) if isinstance(n, ast.Call) and (
+        (isinstance(n.func, ast.Name) and n.func.id == "sorted") or (isinstance(n.func, ast.Attribute) and n.func.attr == "sort"))]
+    if len(srt) != 1 or len(allsorted) != 1 or len(srt[0].targets) != 1 or not isinstance(srt[0].targets[0], ast.Name):
+        raise TranslationError(file, f.lineno, f"Vector.sort_by: expected ONE `X = ...sorted(...)` statement (found {len(srt)} / {len(allsorted)})")
+    j = body.index(srt[0])
+    T = srt[0].targets[0].id
+    tail = body[j + 1:]
+    ok_tail = (len(tail) == 2 and isinstance(tail[0], ast.Assign) and len(tail[0].targets) == 1
+               and isinstance(tail[0].targets[0], ast.Name) and isinstance(tail[0].value, ast.Call)
+               and isinstance(tail[0].value.func, ast.Name) and tail[0].value.func.id == "Vector"
+               and len(tail[0].value.args) == 1 and isinstance(tail[0].value.args[0], ast.Name) and tail[0].value.args[0].id == T
+               and isinstance(tail[1], ast.Return) and isinstance(tail[1].value, ast.Name)
+               and tail[1].value.id == tail[0].targets[0].id)
+    if not ok_tail:
+        raise TranslationError(file, srt[0].lineno, f"Vector.sort_by: after the sort, expected `W = Vector({T}, ...)` and `return W`")
+    syn = ast.FunctionDef(name="sort_by", args=ast.arguments(posonlyargs=[], args=list(f.args.args), kwonlyargs=[],
+                                                           kw_defaults=[], defaults=[]),
+                          body=body[:j + 1] + [ast.Return(value=ast.Name(id=T, ctx=ast.Load()))], decorator_list=[])
+    ast.copy_location(syn, f)
+    syn.end_lineno = srt[0].end_lineno
+    ast.fix_missing_locations(syn)
+    syn.body[-1].lineno = srt[0].end_lineno
+    k = Kernel("sort_by", "vector_sort_by", ["svec", "bool", "bool"], "lscell", cls="Vector", ctxp=SORT_CTXP, sort_forms=True)
+    k.node, k.keyfn_arg = syn, "scell"
+    notes.append(f"vector.py:{f.lineno}-{srt[0].end_lineno} Vector.sort_by: translated up to `{T} = ...sorted(...)`, as a function of "
+                 f"({me}._underlying, {f.args.args[1].arg}, {f.args.args[2].arg}) returning {T}; the wrapping "
+                 f"`Vector({T}, dtype=..., name=...)` is not translated (shape checked)")
+    text, _, _ = translate_function(file, k, {}, notes)
+    parts.append(text)
+    lines["vector_sort_by"] = [f.lineno, srt[0].end_lineno]
+    head = ("(* GenSort.v — GENERATED by harness/translate.py from table.py (Table.sort_by, step 5) and vector.py\n"
+            "   (Vector.sort_by); do not edit.  list.sort / sorted with key= and reverse= is Model/Sort.pysort on the keys\n"
+            "   (flag, value) compared by Model/Sort.key_leb (the flag first; False < True; values by vleb).\n"
+            + "".join(f"   {n}\n" for n in dict.fromkeys(notes)).replace("*)", "* )") + "*)\n" + IMPORTS_SORT + "\n")
+    return head + "\n".join(parts), {"lines": lines, "notes": list(dict.fromkeys(notes))}
+
+
+# ---- aggregate / window: the output-name helpers (table.py) ---------------------------------------------------
+
+IMPORTS_AGGNAMES = ("From Coq Require Import List Bool Arith Ascii String.\n"
+                    "From Serif Require Import Base.PyVal Base.GenPrelude Model.Naming.\nImport ListNotations.\n")
+
+
+class _ReturnWithState(ast.NodeTransformer):
+    """return e  ->  return (e, <set>) : the helper's effect on the enclosing used-name set made explicit"""
+
+    def __init__(self, U):
+        self.U = U
+
+    def visit_Return(self, node):
+        return ast.copy_location(ast.Return(value=ast.Tuple(elts=[node.value, ast.Name(id=self.U, ctx=ast.Load())],
+                                                            ctx=ast.Load())), node)
+
+    def visit_FunctionDef(self, node):      # only the helper itself
+        node.body = [self.visit(b) for b in node.body]
+        return node
+
+
+def translate_aggnames(table_py: Path):
+    import copy
+    notes, parts, lines = [], [], {}
+    tree = ast.parse(table_py.read_text(), filename=str(table_py))
+    cs = [n for n in tree.body if isinstance(n, ast.ClassDef) and n.name == "Table"]
+    if len(cs) != 1:
+        raise TranslationError(table_py, 0, f"class Table: found {len(cs)} definitions")
+    sans = [n for n in tree.body if isinstance(n, (ast.Import, ast.ImportFrom))
+            and any((al.asname or al.name) == "_sanitize_user_name" for al in n.names)]
+    if len(sans) != 1 or ast.unparse(sans[0]) != "from .naming import _sanitize_user_name":
+        raise TranslationError(table_py, 0, "`_sanitize_user_name` must be bound once, by `from .naming import _sanitize_user_name`")
+    for meth in ("aggregate", "window"):
+        ms = [n for n in ast.walk(cs[0]) if isinstance(n, (ast.FunctionDef, ast.AsyncFunctionDef)) and n.name == meth]
+        if len(ms) != 1 or ms[0] not in cs[0].body or ms[0].decorator_list:
+            raise TranslationError(table_py, 0, f"method Table.{meth}: found {len(ms)} plain definitions")
+        M = ms[0]
+        err = lambda node, what: TranslationError(table_py, getattr(node, "lineno", M.lineno), f"Table.{meth}: {what}")
+        if any(isinstance(n, ast.Name) and n.id == "_sanitize_user_name" and isinstance(n.ctx, ast.Store) for n in ast.walk(M)):
+            raise err(M, "_sanitize_user_name is re-bound")
+        nested = [n for n in M.body if isinstance(n, ast.FunctionDef)]
+        uq = [n for n in ast.walk(M) if isinstance(n, ast.FunctionDef) and n.name == "uniquify"]
+        mk = [n for n in nested if any(isinstance(c, ast.Call) and isinstance(c.func, ast.Name)
+                                       and c.func.id == "_sanitize_user_name" for c in ast.walk(n))]
+        allsan = [c for c in ast.walk(M) if isinstance(c, ast.Call) and isinstance(c.func, ast.Name) and c.func.id == "_sanitize_user_name"]
+        if len(uq) != 1 or uq[0] not in nested or len(mk) != 1 or mk[0] is uq[0] \
+                or any(c not in list(ast.walk(mk[0])) for c in allsan):
+            raise err(M, f"expected ONE nested `uniquify` and ONE nested name builder holding every _sanitize_user_name call "
+                         f"(found {len(uq)} / {len(mk)})")
+        UQ, MK = uq[0], mk[0]
+        for fn in (UQ, MK):
+            a = fn.args
+            if fn.decorator_list or a.vararg or a.kwarg or a.kwonlyargs or a.posonlyargs or a.defaults:
+                raise err(fn, f"{fn.name}: decorators / defaults / *args")
+            if sum(1 for n in ast.walk(M) if isinstance(n, ast.Name) and n.id == fn.name and isinstance(n.ctx, ast.Store)) \
+                    or sum(1 for n in ast.walk(M) if isinstance(n, ast.FunctionDef) and n.name == fn.name) != 1:
+                raise err(fn, f"{fn.name} is bound more than once")
+        if len(UQ.args.args) != 1 or len(MK.args.args) != 2:
+            raise err(UQ, "uniquify(name) / name builder (col, suffix): unexpected parameter lists")
+        # the used-name set: the one free name of uniquify that is a `X = set()` of the method
+        local = {a.arg for a in UQ.args.args} | set(assigned(UQ.body))
+        free = sorted({n.id for n in ast.walk(UQ) if isinstance(n, ast.Name) and isinstance(n.ctx, ast.Load)} - local)
+        if len(free) != 1:
+            raise err(UQ, f"uniquify must read exactly one name of the enclosing method (the used-name set); it reads {free}")
+        U = free[0]
+        inits = [st for st in M.body if isinstance(st, ast.Assign) and len(st.targets) == 1 and isinstance(st.targets[0], ast.Name)
+                 and st.targets[0].id == U]
+        if len(inits) != 1 or ast.unparse(inits[0].value) != "set()" or M.body.index(inits[0]) > M.body.index(UQ):
+            raise err(UQ, f"{U} must be initialised once, by `{U} = set()`, before uniquify is defined")
+        inside = {id(n) for n in ast.walk(UQ)}
+        for n in ast.walk(M):
+            if isinstance(n, ast.Name) and n.id == U and id(n) not in inside and n is not inits[0].targets[0]:
+                raise err(n, f"the used-name set {U} is touched outside uniquify")
+            if isinstance(n, (ast.Global, ast.Nonlocal)):
+                raise err(n, "global / nonlocal")
+        # uniquify as (set, name) -> (result, set)
+        g = _ReturnWithState(U).visit(copy.deepcopy(UQ))
+        g.args.args = [ast.arg(arg=U), UQ.args.args[0]]
+        ast.fix_missing_locations(g)
+        k = Kernel("uniquify", f"{meth}_uniquify", ["lstr", "str"], ("str", "lstr"), cls="Table", name_forms=True)
+        k.node = g
+        text, _, _ = translate_function(table_py, k, {}, notes)
+        parts.append(text.replace(f"Table.uniquify *)", f"Table.{meth}: uniquify as ({U} before, name) -> (result, {U} after); "
+                                                          f"{U}.add(x) is x :: {U} *)", 1))
+        lines[f"{meth}_uniquify"] = [UQ.lineno, UQ.end_lineno]
+        # the name builder
+        k = Kernel(MK.name, f"{meth}_make_name", ["ncol", "str"], "str", cls="Table", name_forms=True,
+                   ctxp=("(san : str -> option str)", "san"))
+        k.node = copy.deepcopy(MK)
+        text, _, _ = translate_function(table_py, k, {}, notes)
+        parts.append(text)
+        lines[f"{meth}_make_name"] = [MK.lineno, MK.end_lineno]
+        # the call sites of uniquify: key names `X._name or "<lit>"`, built names, given names
+        sites = [c for c in ast.walk(M) if isinstance(c, ast.Call) and isinstance(c.func, ast.Name) and c.func.id == "uniquify"
+                 and id(c) not in inside]
+        keysites = []
+        for c in sites:
+            if len(c.args) != 1 or c.keywords:
+                raise err(c, "uniquify call shape")
+            a = c.args[0]
+            if isinstance(a, ast.Name):
+                continue                                                     # a name given by the caller (apply=...)
+            if isinstance(a, ast.Call) and isinstance(a.func, ast.Name) and a.func.id == MK.name:
+                continue
+            if (isinstance(a, ast.BoolOp) and isinstance(a.op, ast.Or) and len(a.values) == 2
+                    and isinstance(a.values[0], ast.Attribute) and isinstance(a.values[0].value, ast.Name)
+                    and a.values[0].attr == "_name"):
+                keysites.append(a)
+                continue
+            raise err(c, f"uniquify is called on `{ast.unparse(a)}`: not a key name, a built name or a given name")
+        if not keysites or len({ast.unparse(a.values[1]) for a in keysites}) != 1:
+            raise err(M, f"expected the key columns to be named `col._name or <one literal>` (found {len(keysites)} sites)")
+        a = keysites[0]
+        k = Kernel(f"{meth} key name", f"{meth}_key_name", ["ncol"], "str", cls="Table", name_forms=True)
+        k.node = M
+        ctx = Ctx(table_py, k, {}, notes)
+        col = a.values[0].value.id
+        t, ty = expr(ctx, {col: (mangle(ctx, a, col), "ncol")}, a)
+        parts.append(f"(* table.py:{a.lineno} Table.{meth}: the name of a key column, `{ast.unparse(a)}` *)\n"
+                     f"Definition {meth}_key_name ({mangle(ctx, a, col)} : option str) : str :=\n  {coerce(ctx, a, t, ty, 'str')}.\n")
+        lines[f"{meth}_key_name"] = [a.lineno, a.lineno]
+    head = ("(* GenAggNames.v — GENERATED by harness/translate.py from table.py (Table.aggregate, Table.window); do not edit.\n"
+            "   The output-name helpers only: uniquify (with the enclosing used-name set as explicit state), the name builder\n"
+            "   <sanitised column name or \"col\">_<suffix> (_sanitize_user_name is the parameter san) and the key-name rule.\n"
+            "   NOT translated: in which order the methods call them (keys, then sum/mean/min/max/count/stdev, then apply) —\n"
+            "   Model/Names.agg_bases, tied by the correspondence check of C18.\n"
+            + "".join(f"   {n}\n" for n in dict.fromkeys(notes)).replace("*)", "* )") + "*)\n" + IMPORTS_AGGNAMES + "\n")
+    return head + "\n".join(parts), {"lines": lines, "notes": list(dict.fromkeys(notes))}
+
+
 IMPORTS_CSV = ("From Coq Require Import List Bool.\nFrom Serif Require Import Base.PyVal Base.GenPrelude.\n")
 IMPORTS_FP = ("From Coq Require Import List Bool ZArith.\n"
               "From Serif Require Import Base.PyVal Base.GenPrelude.\nLocal Open Scope Z_scope.\n")
@@ -1472,8 +2080,8 @@ LET_ID2 = re.compile(r"^( *)let (py_\w+) :=\n((?:.*\n)*?)\1in\n *\2$", re.M)    
 
 
 def fresh(kernels):
-    return [Kernel(k.py, k.coq, list(k.params), k.ret, k.cls, k.mode, k.prop, k.wrap_kind, k.static, k.elem_forms, k.ctxp)
-            for k in kernels]
+    return [Kernel(k.py, k.coq, list(k.params), k.ret, k.cls, k.mode, k.prop, k.wrap_kind, k.static, k.elem_forms, k.ctxp,
+                   k.sort_forms, k.name_forms) for k in kernels]
 
 
 def _gen_fingerprint(repo_src):
@@ -1495,6 +2103,8 @@ GENERATORS = {
     "GenJoin.v": lambda src: translate_joins(src / "table.py"),
     "GenFingerprint.v": _gen_fingerprint,
     "GenDispatch.v": translate_dispatch,
+    "GenSort.v": translate_sort,
+    "GenAggNames.v": lambda src: translate_aggnames(src / "table.py"),
     "GenCsv.v": lambda src: translate_file(src / "csv.py", fresh(CSV_KERNELS), "GenCsv", IMPORTS_CSV),
 }
 
@@ -1542,8 +2152,10 @@ SCRIPTS = [            # (committed proof script, generated modules it needs)
     ("EqFingerprint.v", ["GenFingerprint.v"]),
     ("EqDispatch.v", ["GenDispatch.v"]),
     ("EqCsv.v", ["GenCsv.v"]),
+    ("EqSort.v", ["GenSort.v"]),
+    ("EqAggNames.v", ["GenAggNames.v"]),
 ]
-NEEDED_VO = ["Base/GenPrelude", "Props/C04", "Props/C07", "Props/C18", "Props/C11", "Props/C16", "Props/C05", "Props/C19"]
+NEEDED_VO = ["Base/GenPrelude", "Props/C04", "Props/C07", "Props/C18", "Props/C11", "Props/C16", "Props/C05", "Props/C19", "Props/C14"]
 BUDGET = float(__import__("os").environ.get("SERIF_TRANSLATE_BUDGET", "28"))   # seconds for one run()
 
 HARD_TIMEOUT = 120.0   # seconds for one coqc that MUST run (generated file, first pass over a proof script)
